@@ -10,6 +10,7 @@ Dom2Class(L) == {-1, 0, 1, L - 1, L, L + 1, HUGE}
 Dom2Near(L)  == -1..(L + 1)
 Dom2Tiny(L)  == {-1, 0, 1, L}
 Dom2None(L)  == {}
+Dom2Sim(L)   == {-1, 0, 1, L - 1, L}
 Dom2Min(L)   == {-1, 0, 1}
 
 Host0 == <<>>
